@@ -138,9 +138,21 @@ fn run_update(changed: &mut HashSet<OwnedDirEntry>, deps: &mut DepsGraph, cache:
     let to_update = deps.topological_sort_from(changed.iter());
     changed.clear();
 
+    #[cfg(assets_manager_verif)]
+    let mut verif_order = Vec::new();
+
     for key in to_update.into_iter() {
+        #[cfg(assets_manager_verif)]
+        verif_order.push((key.id.to_string(), key.type_id));
+
         deps.reload(cache.as_any_cache(), key);
     }
+
+    #[cfg(assets_manager_verif)]
+    crate::verif_hooks::PASS_LOG
+        .lock()
+        .unwrap_or_else(|e| e.into_inner())
+        .push(verif_order);
 
     #[cfg(assets_manager_verif)]
     crate::verif_hooks::PASSES_RUN.fetch_add(1, std::sync::atomic::Ordering::SeqCst);
